@@ -53,6 +53,9 @@ func c11RunScenario(sc c11Scenario, res *c11ShardResult, budget int64) {
 			if cw.w.Cache != nil {
 				cw.w.Cache.Gate = func(kind, name string) { verifrt.Env(kind) }
 			}
+			if cfg.KS.Name == "struct" {
+				cw.w.MshGate = func() { verifrt.Env("marshal") }
+			}
 			var wg verifrt.WaitGroup
 			wg.Add(len(sc.Seqs))
 			for i := range sc.Seqs {
@@ -65,6 +68,7 @@ func c11RunScenario(sc c11Scenario, res *c11ShardResult, budget int64) {
 			wg.Wait()
 			return func(*verifrt.Result) sched.Outcome {
 				cw.w.Store.Gate = nil
+				cw.w.MshGate = nil
 				if cw.w.Cache != nil {
 					cw.w.Cache.Gate = nil
 				}
